@@ -11,6 +11,8 @@ func (f *syntaxAggregateFunction) retrieve(
 	root, current interface{}, container *bufferContainer) errorRuntime {
 
 	values := getContainer()
+
+	verifHook(6, values)
 	defer func() {
 		putContainer(values)
 	}()
